@@ -15,8 +15,8 @@ from ..render import STATEMENT_WORDS, layout_differences, render_script
 
 # statement kinds whose keywords may be re-cased (the property names CREATE TABLE / ALTER TABLE / CREATE INDEX /
 # CREATE SEQUENCE); the other kinds are only re-laid-out
-CASE_KINDS = {"tables", "ctable", "alter", "typed", "seq", "like"}
-KINDS = ["tables", "ctable", "alter", "typed", "seq", "decl", "drop", "like", "set"]
+CASE_KINDS = {"tables", "ctable", "alter", "typed", "seq", "like", "dtable"}
+KINDS = ["tables", "ctable", "alter", "typed", "seq", "decl", "drop", "like", "set", "dtable"]
 
 
 @st.composite
@@ -49,16 +49,23 @@ SAME_LINE = [" ", "  ", "\t", " \t ", "   ", None, None]  # None -> line break +
 BREAKS = ["\n", "\n\n", "\n  ", "\n\t", "\n    ", None, None]  # None -> join the lines with one blank
 
 
-def relayout(text, choices, crlf):
+def relayout(text, choices, crlf, no_carve=False):
     """-> (new text, stats) ; stats: gaps changed, breaks inserted, breaks removed"""
     atoms = _ATOM.findall(text)
     out = []
     stats = {"changed": 0, "inserted": 0, "removed": 0}
     ci = 0
+    first_of_line = None  # first token of the current source line
     for i, a in enumerate(atoms):
+        if not a.isspace():
+            if first_of_line is None:
+                first_of_line = a
+        elif "\n" in a:
+            first_of_line = None
         if not a.isspace() or i == 0 or i == len(atoms) - 1:
             out.append(a)
             continue
+        in_set_line = first_of_line is not None and first_of_line.upper() == "SET" and not no_carve  # K19
         prev, nxt = atoms[i - 1], atoms[i + 1]
         rest = "".join(atoms[i + 1:i + 4])
         ch = choices[ci % len(choices)]
@@ -68,7 +75,10 @@ def relayout(text, choices, crlf):
         if "\n" not in a:
             new = SAME_LINE[ch % len(SAME_LINE)]
             if new is None:
-                new = a if (line_start_sensitive or before_literal or prev.endswith(";")) else "\n  "
+                # K23: no break directly after a statement-level word (a lone CREATE / ALTER on its line is not recognised
+                # as a statement start when the previous statement has no ';')
+                after_stmt_word = bool(_STMT.fullmatch(prev)) and not no_carve
+                new = a if (line_start_sensitive or before_literal or prev.endswith(";") or after_stmt_word or in_set_line) else "\n  "
                 if new != a:
                     stats["inserted"] += 1
             elif "\t" in new and before_literal:
@@ -90,10 +100,21 @@ def relayout(text, choices, crlf):
     return res, stats
 
 
+def _stmt_word_inside_parentheses(d):
+    depth = 0
+    for line in d.split("\n"):
+        if depth > 0 and _STMT.match(line.strip()):
+            return True
+        depth += line.count("(") - line.count(")")
+    return False
+
+
 def corpus_ok(item):
     d = item["ddl"]
+    if _stmt_word_inside_parentheses(d):
+        return False  # the property's precondition does not hold for this text (a column named create / alter_date ... starts a line)
     # comments are line-oriented by nature (a '--' comment ends at the line end): not re-laid-out here (C08 covers them)
-    return not _COMMENTISH.search(d) and "\\'" not in d and "input.regex" not in d
+    return not _COMMENTISH.search(d) and "\\'" not in d and "input.regex" not in d and not re.search(r"[^\x00-\x7f]", d)
 
 
 class C05(Prop):
@@ -121,6 +142,13 @@ class C05(Prop):
         k = 4 if tier == "quick" else 6
         return st.one_of(model_case(k), model_case(k), model_case(k), corpus_case())
 
+    def enumerated(self, tier):
+        # deterministic sweep: every corpus script x fixed choice vectors (every gap the same way, and mixed)
+        vectors = [[0], [1], [2], [3], [4], [5], [6], [5, 0, 6, 1, 2], [6, 5], [3, 5, 4, 6, 0, 1]]
+        for i in range(len(universe.corpus())):
+            for j, v in enumerate(vectors):
+                yield {"src": "corpus", "item": i, "choices": v, "crlf": j % 4 == 3}
+
     # ---- (a)
     def stmts(self, case):
         """-> (statements, statements with un-recasable keywords turned into value words)"""
@@ -137,7 +165,7 @@ class C05(Prop):
     def describe(self, case):
         if case["src"] == "corpus":
             it = universe.corpus()[case["item"]]
-            return {"corpus_item": it["src"], "relayout": relayout(it["ddl"], case["choices"], case["crlf"])[0]}
+            return {"corpus_item": it["src"], "relayout": relayout(it["ddl"], case["choices"], case["crlf"], case.get("_no_carve"))[0]}
         ss = self.stmts(case)
         return {"canonical": render_script(ss, None), "relayout": render_script(ss, case["layouts"][0])}
 
@@ -184,12 +212,12 @@ class C05(Prop):
     def evaluate_corpus(self, case):
         out = Outcome()
         it = universe.corpus()[case["item"]]
-        if not corpus_ok(it):
+        if not corpus_ok(it) and not case.get("_no_carve"):
             out.excluded = "corpus-item-with-comments-or-known-finding"
             return out
         kw = dict(it["ctor"], **it["run"])
         kw.pop("debug", None)
-        text, stats = relayout(it["ddl"], case["choices"], case["crlf"])
+        text, stats = relayout(it["ddl"], case["choices"], case["crlf"], case.get("_no_carve"))
         out.label("corpus")
         out.nontrivial = stats["changed"] >= 3 and (stats["inserted"] + stats["removed"]) >= 1
         r0 = loader.try_parse(it["ddl"], **kw)
